@@ -35,6 +35,16 @@ MINIMISE = False
 
 
 def draw(rng, tier):
+    cfg = _draw(rng, tier)
+    # a third of the runs: three nodes and one or two leader changes while calls are in flight (the leader is cut off
+    # for a few election time-outs, then the network heals)
+    if rng.random() < 0.35:
+        cfg['n_nodes'] = 3
+        cfg['disturb'] = rng.choice([1, 2])
+    return cfg
+
+
+def _draw(rng, tier):
     return dict(n_nodes=rng.choice([1, 2, 2, 3]), n_callers=rng.choice([2, 3, 4, 6]), n_calls=rng.choice([1, 3, 5, 8]),
                 qsize=rng.choice([0, 1, 2, 3, 100000]), preempt_p=rng.choice([0.005, 0.02, 0.05, 0.15]),
                 opcode=(tier == 'thorough' and rng.random() < 0.3), use_batch=rng.random() < 0.5,
@@ -87,6 +97,8 @@ def execute(seed, cfg):
             for cid in list(net.pending):
                 c = net.pending.get(cid)
                 if c is not None:
+                    if c.shost is not None and w.blocked(c.chost, c.shost):
+                        continue
                     net.resolve_connect(cid, 'ok' if (c.shost, c.port) in net.listeners else 'refuse')
             for pid in net.live_pipes():
                 net.deliver(pid, rng.choice([0, 0, 0, 7, 64]))
@@ -132,8 +144,24 @@ def execute(seed, cfg):
             if rng.random() < 0.3:
                 so.time.sleep(rng.choice([0.0, 0.01, 0.1]))
 
+    def disturber():
+        for _ in range(cfg.get('disturb', 0)):
+            sched.yield_(wake_at=sched.now + rng.choice([0.3, 1.0, 2.0]))
+            lead = [i for i, x in enumerate(nodes) if x is not None and x._isLeader()]
+            if not lead or stop['v']:
+                continue
+            g = [0] * n
+            g[lead[0]] = 1
+            w.groups = g
+            w.fault('partition')
+            sched.yield_(wake_at=sched.now + rng.choice([1.5, 3.0]))
+            w.groups = None
+            w.fault('heal')
+
     def main():
         setup()
+        if cfg.get('disturb'):
+            sched.spawn(disturber, 'disturber', host=0, traced=False)
         cs = [sched.spawn((lambda k=k: caller(k)), 'caller%d' % k, host=k % n) for k in range(cfg['n_callers'])]
         # wait for the callers (bounded), then for quiescence, then stop the nodes
         deadline = sched.now + 120.0
@@ -255,7 +283,7 @@ def execute(seed, cfg):
     res = dict(seed=seed, cfg=cfg, events=[], n_events=sched.steps, sim_time=w.T, digest=dig, violations=viol, cross=[],
                probes=dict(preemptions=sched.preemptions, preempted_inside_call_path=sched.overlaps, thread_slices=sched.steps,
                            calls=len(calls), calls_succeeded=nsucc),
-               faults={}, net=dict(w.net.stats), summary=dict(calls=len(calls), succeeded=nsucc, threads=len(sched.threads)),
+               faults=dict(w.faults), net=dict(w.net.stats), summary=dict(calls=len(calls), succeeded=nsucc, threads=len(sched.threads)),
                n_tick_exc=0, tick_exc=[], states=set(), aborted=('steps' if status == 'steps' else None), wall=_time.time() - t0,
                nontrivial=(sched.overlaps >= 2 and nsucc > 0))
     thr.S.s = None
